@@ -115,6 +115,9 @@ func genC03(seed uint64, idx int) *Plan {
 			p.ClientChainPad = 0 // keeps the resumption hello within one record (the property's size range)
 		}
 		p.Reenc = &ReencPlan{RunPick: r.IntN(8), FromOff: r.IntN(8), Len: r.IntN(9), Pad: []int{0, 0, 1, 17, 31, 200, 1000}[r.IntN(7)]}
+		// the front hands the client's side to io.Copy (which uses whatever
+		// shortcut the Conn offers)
+		p.CopyUp = idx%3 == 2 && p.Forward
 		return &Plan{Kind: "live", Seed: seed, Live: p}
 	}
 	p := genScriptBase(r)
